@@ -197,7 +197,7 @@ class PercentEncoder(collections.defaultdict):
 
         if ((self.unix and char == b'/')
                 or (self.control and
-                    (0 <= char_num <= 31 or
+                    (0 <= char_num <= 31 or char_num == 127 or
                      self.ascii and 128 <= char_num <= 159))
                 or (self.windows and char in br'\|/:?"*<>')
                 or (self.ascii and char_num > 127)):
